@@ -110,6 +110,8 @@ pub enum Ev {
     // ---- harness markers
     CallStart,
     CallEnd,
+    /// async twins: the call returned its future (nothing has polled it yet)
+    FutMade,
     CreateStart(usize),
     CreateEnd(usize),
     PollStart(usize),
